@@ -67,6 +67,9 @@ def register(probe):
           conv=char_list, lean_type="String", doc="characters a lot note cannot contain")
     probe("lineOrSemiStopChars", "core/src/parse/character.rs", r"take_till\(1\.\., \[([^\]]*)\]\)",
           conv=char_list, lean_type="String", doc="till_line_ending_or_semi stops at these")
+    probe("parenStrStopChars", "core/src/parse/character.rs",
+          r"pub fn paren_str<.*?paren\(take_till\(0\.\., (.*?)\)\)\.parse_next",
+          conv=char_list, lean_type="String", doc="paren_str (the transaction code) stops at these; only `)` closes it")
     probe("numberTokenExtra", "core/src/parse/primitive.rs", r"c\.is_ascii_digit\(\) \|\| c == '(.)' \|\| c == '.'",
           conv=str, lean_type="String", doc="first non-digit character allowed inside a number token")
     probe("numberTokenExtra2", "core/src/parse/primitive.rs", r"c\.is_ascii_digit\(\) \|\| c == '.' \|\| c == '(.)'",
